@@ -1,9 +1,19 @@
-(* C01 - Generated moves are exactly the legal moves (model-level part).
-   Exactness against the rules is decided by the correspondence with the specification oracle
-   (Spec.legal_moves) on enumerated geometry families and specification-generated games.  The theorems
-   below are the facts about the model that the castling rules rest on, for every board. *)
-From Walleye Require Import Model.Successor Proofs.MoveGenProofs.
+(* C01 - Generated moves are exactly the legal moves.
+   Proved here, for every Zobrist table and every well-formed position (pos_ok: sentinel ring, king
+   caches, castling rights only with king and rook at home, en-passant target behind a pawn that has just
+   double-stepped, the side not to move not in check): every move the generator produces is a legal move
+   of the rules (Spec.legal_moves: pseudo-legal by the movement rules - pawn pushes, captures, en passant,
+   promotions, knight and king steps, slider rays, castling with right/empty squares/unattacked start,
+   transit and destination - and not leaving the mover's king attacked).
+   The model is tied to the code by the correspondence with the implementation on every run. *)
+From Walleye Require Import Model.Successor Spec.Abs Proofs.MoveGenProofs Proofs.GenerateAbs Proofs.LegalMoves.
 Open Scope Z_scope.
+
+(* soundness: no illegal move appears *)
+Theorem C01_generated_moves_are_legal : forall zt s x,
+  pos_ok s AllMoves -> In x (generate_moves zt s AllMoves) ->
+  exists mv, desc x = Some mv /\ In mv (legal_moves (abs s)).
+Proof. exact generated_moves_are_legal. Qed.
 
 (* a probed square that passes is_check_cords is not next to the enemy king:
    the king test looks at the probed square, not at the own king's square *)
@@ -24,5 +34,6 @@ Theorem C01_castle_conditions : forall s,
   is_empty (get (board s) (BOARD_END - 1, BOARD_END - 2)) = true.
 Proof. exact can_castle_wks_safe. Qed.
 
+Print Assumptions C01_generated_moves_are_legal.
 Print Assumptions C01_probe_sees_enemy_king.
 Print Assumptions C01_castle_conditions.
